@@ -108,6 +108,11 @@ def gen_conditions(rng, n=None, cyclic_ok=True):
                 # equality of objects is equality of their members, whatever the order they are written in
                 {"Fn::Equals": [{"team": "data", "stage": {"Ref": "Env"}}, rng.choice([{"stage": "prod", "team": "data"}, {"team": "data", "stage": "prod"}, {"stage": "dev", "team": "data"}])]},
                 {"Fn::Equals": [["a", {"Ref": "Env"}], rng.choice([["a", "prod"], ["prod", "a"]])]},
+                # operands that are booleans / numbers not written in the template (read from a mapping, produced by a condition
+                # function) are compared as the text they render to: true is "true" and is not 1
+                {"Fn::Equals": [{"Fn::FindInMap": ["Flags", rng.choice(["prod", "dev"]), rng.choice(["Versioning", "Logging"])]},
+                                rng.choice([{"Fn::FindInMap": ["Flags", rng.choice(["prod", "dev"]), rng.choice(["Versioning", "Logging"])]}, "true", "false", "1", "0", 1, True, "True"])]},
+                {"Fn::Equals": [{"Fn::Equals": ["a", rng.choice(["a", "b"])]}, rng.choice(["true", "false", True, {"Fn::FindInMap": ["Flags", "prod", "Versioning"]}])]},
             ])
         else:
             d = ref()
